@@ -180,4 +180,23 @@ PROPS["C03"] = {
     "claimed": False,
 }
 
+PROPS["C15"] = {
+    "imports": JSON_IMPORTS, "prelude": "Definition cfg := Cfg{TAG}.cfg.",
+    "phases": ["produce", "consume"], "consumer_phases": ["consume"],
+    "level_text": "TODO", "level_note": "TODO", "trusted_base": COMMON_TB, "assumptions": [],
+    "rule": "documents (decoded and normalized) written under each of 3.7-3.10 for corpus / generated code objects, loaded, normalized and re-dumped under every available interpreter 3.7-3.13; "
+            "distinct = distinct (document, producer, consumer)",
+    "replay_hint": "write CodeData.from_code(c).to_json_data() under data.producer, load it with CodeData.from_json_data under data.consumer, compare to_json_data() / normalize()",
+    "claimed": False,
+}
+
+PROPS["C16"] = {
+    "imports": "Model.Cli", "prelude": "",
+    "level_text": "TODO", "level_note": "TODO", "trusted_base": COMMON_TB + ["argparse, dis.dis text output, compile(): outside the model"], "assumptions": [],
+    "rule": "all 2^4 subsets of the four source options (with empty-string values) for the usage rule; programs x source kinds {file, -c, -e, -m} x subsets of the five output flags (quick: a seeded sample of 40, thorough: all); "
+            "distinct = distinct argument vectors",
+    "replay_hint": "python -c 'from code_data._cli import main; main()' <data.args> in a directory holding the program file",
+    "claimed": False,
+}
+
 NOT_CLAIMED = {}
